@@ -60,7 +60,7 @@ UTF8 = 'UTF-8 bridge axioms (units/common/str_prelude.rs): byte offsets of char 
 C02DEP = 'that the compiled automaton recognises exactly the pattern languages is property C02 (not decided here): every statement is relative to the compiled automaton'
 
 reg('C01', ['u_dfa', 'u_mode', 'u_iter'],
-    'find_from ensures find_post (longest accepted non-empty prefix; ties -> first in terminal_ids) for every wf automaton, class predicate and input; ScannerImpl::find_from/peek_from the same for the active mode; next_match ensures is_next_tok: the token is the find_post outcome at the first char index >= cursor that has any candidate, skipped positions have none, spans absolute (add_offset), cursor moves to the token end; None only if no position has a candidate',
+    'find_from ensures find_post (longest accepted non-empty prefix; ties -> first in terminal_ids) for every wf automaton, class predicate and input; ScannerImpl::find_from/peek_from the same for the active mode; next_match ensures is_next_tok: the token is the find_post outcome at the first char index >= cursor that has any candidate, skipped positions have none, spans absolute (add_offset), cursor moves to the token end; None only if no position has a candidate; lemma_stream_unique: for lookahead-free configurations the whole stream (stream_from = chain of is_next_tok with the mode following the transitions) is a function of configuration, input, position and mode ("exactly the tokens")',
     [WF, CLS, ITER, UTF8, C02DEP, 'add_patterns (token type = pattern index) is not under contract: Vec<Pattern> construction through iterator adapters'],
     technique='Verus function contracts (requires/ensures/loop invariants) on code extracted from /repo each run')
 reg('C04', ['u_dfa', 'u_mode', 'u_iter'],
